@@ -1197,12 +1197,10 @@ func c13Universe(kind string, thorough bool) (sweep, edit *c13Univ) {
 		return c13MakeUniv(kind, v, mid), c13MakeUniv(kind, v, sm)
 	case c13Ext:
 		v, p := c13ExtVals()
-		u := c13MakeUniv(kind, v, p)
-		return u, u
+		return c13MakeUniv(kind, v, p), c13MakeUniv(kind, v, p[:8])
 	default:
 		v, p := c13LargeVals()
-		u := c13MakeUniv(kind, v, p)
-		return u, u
+		return c13MakeUniv(kind, v, p), c13MakeUniv(kind, v, p[:8])
 	}
 }
 
@@ -1340,6 +1338,7 @@ func TestVerif_C13(t *testing.T) {
 	r.Bounds["ext_values"] = fmt.Sprintf("%d values (2-octet AS with rt/soo/lb/encap sub-types x 6 AS x 10 local admins incl. 65536 and 2^32-1, non-transitive, 4-octet AS, IPv4, encap, opaque, link-bandwidth, validation); %d route lists", len(univ[c13Ext].vals), len(univ[c13Ext].lists))
 	r.Bounds["large_values"] = fmt.Sprintf("%d values; %d route lists", len(univ[c13Large].vals), len(univ[c13Large].lists))
 	r.Bounds["full_local_range"] = "0..65535 under the literal AS (65000 for AS-independent bitmaps) for every single pattern not compiled as regexp, one community per route, 3 options"
+	r.Bounds["edit_route_lists"] = map[string]int{"std": len(eu[c13Std].lists), "ext": len(eu[c13Ext].lists), "large": len(eu[c13Large].lists)}
 	r.Bounds["edit_sequence_length_max"] = depth
 	r.Bounds["edit_alphabet"] = "4 initial sets x {append, remove, replace, replace-via-policy(AddDefinedSet replace=true)} x 4 argument sets, per kind"
 
